@@ -628,6 +628,40 @@ class Fn:
                     atoms.append(a)
         return atoms
 
+    # ---- state-machine arms -------------------------------------------------------------------
+    def enum_switches(self, adt_suffix, min_targets=3):
+        """live switch blocks on the discriminant of an enum whose path ends with adt_suffix"""
+        out = []
+        for b in sorted(self.live):
+            t = self.blocks[b]["t"]
+            if t["k"] != "switch" or len(t["targets"]) < min_targets:
+                continue
+            d = strip_casts(self.operand_expr(t["discr"]))
+            if d[0] == "discr" and strip_ty(d[2] or "").endswith(adt_suffix):
+                out.append(b)
+        return out
+
+    def arm_regions(self, sw):
+        """variant name -> set of blocks dominated by that variant's switch target"""
+        t = self.blocks[sw]["t"]
+        d = strip_casts(self.operand_expr(t["discr"]))
+        adt = d[2]
+        by_target = {}
+        for v, tb in t["targets"]:
+            name = self.prog.variant_name(adt, v) or str(v)
+            by_target.setdefault(tb, []).append(name)
+        domsets = {}
+        for b in self.live:
+            ds = self.dominators_of(b)
+            for n in ds + [("b", b)]:
+                if n[0] == "b" and n[1] in by_target:
+                    domsets.setdefault(n[1], set()).add(b)
+        regions = {}
+        for tb, names in by_target.items():
+            for nm in names:
+                regions[nm] = domsets.get(tb, set())
+        return regions
+
     # ---- atoms -------------------------------------------------------------------------------
     def edge_atoms(self, bb, lab):
         """atoms that hold when leaving block bb through the switch edge labelled lab"""
@@ -958,6 +992,19 @@ def bool_atoms(fn, d, truth):
         return bool_atoms(fn, d[2], False) + bool_atoms(fn, d[3], False)
     if d[0] == "call" and isinstance(d[1], str):
         c = d[1]
+        m = re.search(r"ops::range::(RangeInclusive|Range)::<[^>]*>::contains$|ops::range::(RangeInclusive|Range)::contains$", c)
+        if m and len(d[2]) == 2:
+            r = deref_ref(d[2][0])
+            x = deref_ref(d[2][1])
+            lo = hi = None
+            incl = "RangeInclusive" in c
+            if r[0] == "call" and isinstance(r[1], str) and r[1].endswith("RangeInclusive::new") and len(r[2]) == 2:
+                lo, hi = r[2]
+            elif r[0] == "agg" and r[3]:
+                fl = dict(r[3])
+                lo, hi = fl.get("start"), fl.get("end")
+            if lo is not None and hi is not None:
+                return [("range", x, lo, hi, incl, truth)]
         # PartialEq / PartialOrd calls on non-primitive types
         m = re.search(r"(?:PartialEq(?:<[^>]*>)?>?::|cmp::PartialEq::)(eq|ne)$", c)
         if m and len(d[2]) == 2:
@@ -999,4 +1046,6 @@ def atom_str(a, fn=None):
         return "%s %s {%s}" % (fmt(a[1], fn), "is" if a[3] else "is not", ",".join(map(str, sorted(a[2], key=str))))
     if a[0] == "int":
         return "%s %s {%s}" % (fmt(a[1], fn), "in" if a[3] else "not in", ",".join(map(str, sorted(a[2]))))
+    if a[0] == "range":
+        return "%s %s %s..%s%s" % (fmt(a[1], fn), "in" if a[5] else "not in", fmt(a[2], fn), "=" if a[4] else "", fmt(a[3], fn))
     return str(a)
